@@ -609,6 +609,7 @@ def analyse_circle(fn: ast.FunctionDef, fold: Optional[Callable[[ast.AST], Any]]
     if len(pnames) != 4:
         raise AlgebraError("torsion function does not take four points")
     pts = {p: Vec(var(f"{p}{ax}") for ax in "xyz") for p in pnames}
+    alg.set_domain([pts[p] for p in pnames])
     env: Dict[str, Any] = dict(pts)
     guards: List[Tuple[ast.If, Dict[str, Any], Dict[str, ast.AST]]] = []
     defs: Dict[str, ast.AST] = {}
